@@ -18,14 +18,20 @@ import (
 // request, and the Location fetched from the same server must be the completed object.
 func c16FallbackMutating(r *rep.Reporter, kind string, fixed time.Time, bases []string) {
 	hosts := []string{bases[0], "." + bases[0], ".." + bases[0], "a.b." + bases[0], ".b." + bases[0], "b.." + bases[0],
-		"unrelated.host", "127.0.0.1:9000", "[::1]:9000", "", ".", "b" + bases[0], bases[0] + ".evil.com", "." + bases[1], bases[1]}
+		"unrelated.host", "127.0.0.1:9000", "[::1]:9000", "", ".", "b" + bases[0], bases[0] + ".evil.com", "." + bases[1], bases[1],
+		"localhost", "localhost:9000", "minio:9000", "localhost", "minio"}
 	for hi, host := range hosts {
 		mk := func(o drv.Opts) *drv.Server {
 			o.Kind, o.FixedTime, o.VersionSeed = kind, fixed, 777
 			return mustServer(o)
 		}
 		P := mk(drv.Opts{})
-		HB := mk(drv.Opts{HostBases: bases})
+		hbBases := bases
+		if hi%2 == 1 {
+			// a list with an empty entry (an unset variable, a trailing comma): no host is '<label>.' + nothing
+			hbBases = append(append([]string(nil), bases...), "")
+		}
+		HB := mk(drv.Opts{HostBases: hbBases})
 		r.Eval(1)
 		failed := false
 		both := func(l lreq) (*drv.Resp, *drv.Resp) {
